@@ -1,72 +1,9 @@
-# Per-property check configuration: which engines run, with how many workers/cases per tier.
-CHECKS = {
-    "C20": {
-        "level": "exploration",
-        "rule": "exhaustive: every '#define CIF_<NAME> <n>' of cif.h's return_codes group (scraped at run time from the tree "
-                "under test, CIF_TRAVERSE_* excluded) is one case; every code is non-trivial; distinct = distinct code names",
-        "assumptions": ["the committed stem table (harness/pbt/C20_errlist.cpp) transcribes each code's @brief text",
-                        "slots between defined codes are unconstrained"],
-        "min_evaluations": 40,
-        "technique": "exhaustive enumeration of the generated finite domain (result codes scraped from cif.h) against a stem-table oracle",
-        "level_text": "Every result code defined in the header of the tree under test is checked on every run (exhaustive over a finite domain): slot inside the table, non-empty, describes that condition per a committed stem table, pairwise distinct. This is as strong as testing gets for a ~60-element domain; the residual trust is in the stem table.",
-        "level_note": "Trusted: the stem table transcribed from the @brief texts in cif.h; the header scrape (comments stripped).",
-        "engines": [{"src": "pbt/C20_errlist.cpp", "quick": {"workers": 1, "cases": 1}, "thorough": {"workers": 1, "cases": 1}}],
-    },
-}
-CHECKS["C07"] = {
-    "level": "exploration",
-    "rule": "rapidcheck generates a value tree (strings over a weighted alphabet incl. any well-formed UTF-16, numbers in all spellings, "
-            "NA/UNK, lists/tables to depth 5) x store route (5) x read route (4); non-trivial = composite depth >= 2, or string > 256 units, "
-            "or an empty key/list/table, or a number in non-plain spelling; distinct = hash of (value, routes)",
-    "assumptions": ["unpaired surrogates are outside 'well-formed Unicode text' and not generated",
-                    "digit precision is observed through cif_value_get_number/get_su (bit-exact) and the text, not by reading struct fields"],
-    "min_evaluations": 300,
-    "technique": "property-based testing (rapidcheck): generated value trees, round-trip oracle through 5 store x 4 read routes, model equality",
-    "level_text": "Generated search with an exact model-equality oracle over every store/read route pair, under ASan/UBSan with allocation balance; bounded by depth 5, 700-unit strings. Finds mismatches and aliasing for the shapes generated; proves nothing beyond them.",
-    "level_note": "Trusted: my Value model and its to_cif/from_cif bridges (public API only); rapidcheck; sanitizers.",
-    "engines": [{"src": "pbt/C07_values.cpp", "quick": {"workers": 8, "cases": 2500, "size": 100}, "thorough": {"workers": 16, "cases": 40000, "size": 200}}],
-}
-CHECKS["C01"] = {
-    "level": "exploration",
-    "rule": "rapidcheck generates an abstract document (blocks, frames, scalars, loops, nested lists/tables, CIF 2.0 or CIF 1.1 repertoire) "
-            "and an independent layout tape (whitespace, comments, delimiter per value, text-field fold/prefix encodings, keyword case, BOM); "
-            "my own printer renders it; non-trivial = >= 3 delimiter kinds, or a folded/prefixed text field, or a composite, or a non-BMP "
-            "character; distinct = hash of the document bytes",
-    "assumptions": ["the layout printer (harness/common/cifprint.cpp) implements the CIF 2.0/1.1 grammar and the text prefix / line-folding protocols as specified",
-                    "loop packets are compared as multisets (order not asserted)"],
-    "min_evaluations": 300,
-    "technique": "property-based testing (rapidcheck): grammar-based document + layout generation, print/parse round-trip against an abstract model",
-    "level_text": "Generated search over content x layout with an exact model-equality oracle (dump through public getters), silent-callback and default-handler checks, under ASan/UBSan. Bounded document sizes (<= ~20 kB quick); finds layout-dependent mis-parses for generated combinations only.",
-    "level_note": "Trusted: my printer's reading of the CIF grammar; dump()/model code; rapidcheck; sanitizers.",
-    "engines": [{"src": "pbt/C01_parse.cpp", "quick": {"workers": 8, "cases": 250, "size": 100}, "thorough": {"workers": 16, "cases": 10000, "size": 150}}],
-}
-CHECKS["C02"] = {
-    "level": "exploration",
-    "rule": "rapidcheck generates a managed CIF through the API (blocks, frames nested to depth 3, scalars, loops; values of all six kinds incl. "
-            "NUMB and quoted numbers, nested lists/tables, strings over the CIF 2.0 repertoire without CR, line-length boosters around 2048/4096); "
-            "non-trivial = holds a value that cannot be written bare or single-quoted (newline, both quote kinds, > 2040 chars, composite); distinct = hash of the document",
-    "assumptions": ["equivalence as stated in the property (NUMB == unquoted CHAR of same text; unquoted ';...' may come back quoted; names/codes matched under case-folded normalisation; table keys under NFC)",
-                    "CIF_DISALLOWED_VALUE is accepted only when some table key is not clearly presentable quoted/triple-quoted",
-                    "the re-parse uses the library's own parser (validated separately by C01 against an independent printer)"],
-    "min_evaluations": 300,
-    "technique": "property-based testing (rapidcheck): API-built CIFs, write -> output validity checks -> re-parse -> equivalence oracle",
-    "level_text": "Generated search with a round-trip equivalence oracle plus direct checks of the bytes (magic, strict UTF-8, CIF 2.0 repertoire, line length), under ASan/UBSan with allocation balance. Bounded value sizes; no proof.",
-    "level_note": "Trusted: my equivalence relation and output validators; the library parser for the re-read (C01 covers it); rapidcheck; sanitizers.",
-    "engines": [{"src": "pbt/C02_write.cpp", "quick": {"workers": 8, "cases": 1500, "size": 100}, "thorough": {"workers": 16, "cases": 10000, "size": 150}}],
-}
-CHECKS["C13"] = {
-    "level": "exploration",
-    "rule": "as C02 but written in CIF 1.1 mode; 70% of CIFs purely over the CIF 1.1 repertoire (quotes followed/not followed by blanks, ';' after newline, "
-            "trailing backslashes, long lines), 10% with lists/tables, 20% with non-1.1 characters in codes, names or strings; non-trivial = holds a value "
-            "needing a text field or a refusal case; distinct = hash of the document",
-    "assumptions": ["CIF_DISALLOWED_VALUE is accepted only if the CIF holds a list/table or a string containing newline-semicolon; CIF_DISALLOWED_CHAR only if some code, name or string has a character outside 0x20-0x7E, TAB, LF",
-                    "re-parse with line_folding_modifier=1, text_prefixing_modifier=1 as the property states"],
-    "min_evaluations": 300,
-    "technique": "property-based testing (rapidcheck): API-built CIFs, CIF 1.1 write -> purity/line checks -> re-parse -> equivalence or justified refusal",
-    "level_text": "Generated search; oracle = refusal-code justification predicate or full round-trip equivalence plus byte-level purity checks, under ASan/UBSan.",
-    "level_note": "Trusted: my predicate of CIF 1.1 expressibility, the equivalence relation, the library parser for the re-read.",
-    "engines": [{"src": "pbt/C13_write11.cpp", "quick": {"workers": 8, "cases": 1500, "size": 100}, "thorough": {"workers": 16, "cases": 10000, "size": 150}}],
-}
-
+# Per-property check configuration: one file per property under bin/checks/<ID>.py defining CHECK = {...}
+import glob, importlib.util, os
+CHECKS = {}
+for _p in sorted(glob.glob(os.path.join(os.path.dirname(os.path.abspath(__file__)), "checks", "C*.py"))):
+    _spec = importlib.util.spec_from_file_location("check_" + os.path.basename(_p)[:-3], _p)
+    _m = importlib.util.module_from_spec(_spec); _spec.loader.exec_module(_m)
+    CHECKS[os.path.basename(_p)[:-3]] = _m.CHECK
 # properties not claimed yet: reason shown in MANIFEST.not_applicable
 NOT_YET = {}
